@@ -142,6 +142,32 @@ theorem transformToNormal_frame (m : GModel L) (labels : List L) (rows : List (L
     simp only [this, if_true]
     rw [funext hrow]
 
+/-! ### fit stores the columns in TABLE order -/
+
+theorem fitColumns_fst {L C D U : Type} (gd : L → D) (fc : C → D → L → U) (items : List (L × C)) :
+    (Gen.GaussTransform.fitColumns items gd fc).1 = items.map (·.1) := by
+  unfold Gen.GaussTransform.fitColumns
+  have key : ∀ (items : List (L × C)) (acc : List L × List U),
+      (items.foldl (fun acc lc => (acc.1 ++ [lc.1], acc.2 ++ [fc lc.2 (gd lc.1) lc.1])) acc).1
+        = acc.1 ++ items.map (·.1) := by
+    intro items
+    induction items with
+    | nil => intro acc; simp
+    | cons x xs ih => intro acc; simp [List.foldl_cons, ih, List.append_assoc]
+  simpa using key items ([], [])
+
+theorem fitColumns_snd_length {L C D U : Type} (gd : L → D) (fc : C → D → L → U) (items : List (L × C)) :
+    (Gen.GaussTransform.fitColumns items gd fc).2.length = items.length := by
+  unfold Gen.GaussTransform.fitColumns
+  have key : ∀ (items : List (L × C)) (acc : List L × List U),
+      (items.foldl (fun acc lc => (acc.1 ++ [lc.1], acc.2 ++ [fc lc.2 (gd lc.1) lc.1])) acc).2.length
+        = acc.2.length + items.length := by
+    intro items
+    induction items with
+    | nil => intro acc; simp
+    | cons x xs ih => intro acc; simp [List.foldl_cons, ih]; omega
+  simpa using key items ([], [])
+
 /-! ### the other container forms reduce to a frame -/
 
 theorem transformToNormal_series (m : GModel L) (labels : List L) (row : List α) :
